@@ -610,7 +610,7 @@ pub fn run(ctx: &Ctx) {
     ctx.assume("forgery probability of the primitives (2^-128 tags, SHA-1 MDC) is not reachable by the generator");
     zoo::warm(&[Kind::Ed25519V4, Kind::Ed25519V6]);
     let thorough = ctx.tier == Tier::Thorough;
-    let n = ctx.tier.pick(20_000u64, 400_000);
+    let n = ctx.tier.pick(20_000u64, 1_600_000);
     ctx.group("sampled-mutations", Source::Random { n, tape_len: 200 }, sampled_case);
     ctx.group("seipdv2-tail-surgery-at-chunk-boundaries", Source::Indexed { count: tail_count() }, tail_surgery_case);
     let ks = ctx.tier.pick(2usize, 5);
